@@ -273,6 +273,16 @@ M('c02-guard-flipped', ['C02'], Y23 + 'f1040.py', "FloatField('34', lambda s, i,
 M('c02-reordered-summands', ['C02'], Y23 + 'f1040.py', "FloatField('14', lambda s, i, v: v['12'] + v['13']),", "FloatField('14', lambda s, i, v: float(v['13'] + v['12'])),", None, 'summands reordered and wrapped in float()', 'silent')
 M('c02-guarded-floor', ['C02'], Y23 + 'f1040.py', "FloatField('22', lambda s, i, v: max(0.0, v['18'] - v['21'])),", "FloatField('22', lambda s, i, v: v['18'] - v['21'] if v['18'] > v['21'] else 0.0),", None, 'floor written as a guarded subtraction', 'silent')
 
+# ------------------------------------------------------------------ K28 (threshold lookups keep no state) and constructor unpacking
+M('k28-shared-threshold-memo', ['C17', 'C08'], 'habutax/form.py', "    def threshold(self, name, requested_key=None):\n", "    _memo = {}\n\n    def threshold(self, name, requested_key=None):\n        if (name, requested_key) in self._memo:\n            return self._memo[(name, requested_key)]\n        self._memo[(name, requested_key)] = self._threshold(name, requested_key)\n        return self._memo[(name, requested_key)]\n\n    def _threshold(self, name, requested_key=None):\n", 'K28', 'threshold lookups memoised in a dict shared by all forms, keyed without the form (seed C17-D)', accept_error=True)
+M('r173-unpack-wrong-length', ['C17'], Y23 + 'f8889.py', "        you = \"you\" if instance == \"you\" else \"your spouse\"\n", "        you, _your = {'you': ('you', 'your'), 'spouse': ('your spouse',)}[instance]\n", 'R17.3', 'constructor unpacks a tuple of the wrong length for one allowed instance (seed C17-C)')
+
+# ------------------------------------------------------------------ K11f (value() kinds)
+M('k11f-enum-getattr', ['C11', 'C12'], 'habutax/inputs.py', "        return self.enum[string]\n", "        return getattr(self.enum, string)\n", None, 'enumeration member looked up with getattr: __doc__, mro ... are accepted (seed C11-D, value side)')
+M('k11f-enum-valid-hasattr', ['C11'], 'habutax/inputs.py', "        try:\n            self.enum[string]\n        except KeyError as ke:\n            return False\n        return True\n", "        return hasattr(self.enum, string)\n", 'K11', 'membership tested with hasattr (seed C11-D, validator side)')
+M('k11f-integer-returns-text', ['C11', 'C12'], 'habutax/inputs.py', "        if len(string) == 0:\n            return 0\n        return int(string)\n", "        if len(string) == 0:\n            return 0\n        int(string)\n        return string\n", None, 'integer input validates but returns the text')
+M('k11f-enum-members-table', ['C11', 'C12'], 'habutax/inputs.py', "        return self.enum[string]\n", "        return self.enum.__members__[string]\n", None, 'member looked up in the members table', 'silent')
+
 # ------------------------------------------------------------------ R8.5 (amounts printed per filing status on the template)
 M('r85-2021-8812-33-hoh', ['C08'], Y21 + 'f1040_s8812.py', "            elif i['1040.filing_status'] is filing_status.HeadOfHousehold:\n                return 50000.0\n", "            elif i['1040.filing_status'] is filing_status.HeadOfHousehold:\n                return 40000.0\n", 'R8.5', '2021 Schedule 8812 line 33 for head of household differs from the amount printed in the box')
 M('r85-2023-8812-9-qss', ['C08'], Y23 + 'f1040_s8812.py', "                filing_status.MarriedFilingJointly: 400000.0,\n                (filing_status.Single, filing_status.MarriedFilingSeparately,\n                 filing_status.QualifyingSurvivingSpouse,\n", "                (filing_status.MarriedFilingJointly, filing_status.QualifyingSurvivingSpouse): 400000.0,\n                (filing_status.Single, filing_status.MarriedFilingSeparately,\n", None, 'qualifying surviving spouse moved to the joint phase-out threshold; the box prints 200,000 for all other statuses')
